@@ -55,10 +55,14 @@ fn spec_class(p: &BPos, src: u8, to: u8, kind: usize) -> u8 {
 }
 
 /// officers (N, B, R, Q) of which the side to move has at most `max_kind`; any valid position, any legal officer move
-pub fn ambiguity(max_kind: u32) {
+/// case split: officer kind (1..4) x destination square (64 = any) x side (2 = any)
+pub fn ambiguity(max_kind: u32, kind: usize, dst: u8, side: u8) {
     let p = pos::any_valid();
+    if side < 2 { kani::assume(p.white_to_move == (side == 0)); }
     let (w, m) = step::any_legal(&p);
     kani::assume(m.kind >= N && m.kind <= Q && pos::raw_promo(w) == 0);
+    kani::assume(m.kind == kind);
+    if dst < 64 { kani::assume(pos::raw_dst(w) == dst); }
     let us = p.us();
     kani::assume(p.pcs[us][m.kind].count_ones() <= max_kind);
     // one arbitrary other legal move in the list (different destination or kind)
